@@ -789,6 +789,10 @@ class Engine:
                 not isinstance(node.comparators[0], (ast.List, ast.Tuple, ast.Set)):
             right0 = self.eval(node.comparators[0], st)
             if left.ty.kind in ('Np1', 'Np2') or right0.ty.kind in ('Np1', 'Np2'):
+                if self.in_spec and left.ty == right0.ty and isinstance(node.ops[0], (ast.Eq, ast.NotEq)):
+                    # contract expressions compare arrays as values (same length, same items)
+                    eq = self.equals(left, right0, st)
+                    return V(BOOL, eq if isinstance(node.ops[0], ast.Eq) else z3.Not(eq))
                 return self.np_compare(node.ops[0], left, right0, st)
             return V(BOOL, self.compare(node.ops[0], left, right0, st, node))
         res = []
